@@ -2094,9 +2094,13 @@ func (in *Interp) binop(op token.Token, l, r Val, t types.Type, st *State) Val {
 	if op == token.AND && (r.K == KSym || r.K == KExpr) && l.K == KConst {
 		return Val{K: KExpr, Key: "&mask", Elems: []Val{r, l}}
 	}
-	if op == token.OR || op == token.AND_NOT || op == token.AND {
-		// flag arithmetic with unknown parts
-		return unknown
+	if (op == token.OR || op == token.AND_NOT) && (l.K == KSym || l.K == KExpr) && r.K == KConst {
+		// flag arithmetic on an unknown word: remember operation and constant
+		name := "|mask"
+		if op == token.AND_NOT {
+			name = "&^mask"
+		}
+		return Val{K: KExpr, Key: name, Elems: []Val{l, r}}
 	}
 	return unknown
 }
